@@ -46,6 +46,7 @@ def run(ctx):
     from .c16 import helper_contracts
     helper_contracts(rc, "M9", ("smape_points", "linear_r2_points", "linear_fit_points"))
     d.dtype_guard(rc, "M9", DETECTORS)
+    _no_recursion(rc)
     _driver(rc)
     # ---- M6 ---------------------------------------------------------------------
     d.curvature(rc, "M6", None)
@@ -62,6 +63,40 @@ def run(ctx):
     from .common import hidden_state as _hidden_state
     _hidden_state(rc, "M10", ['multi_knee.multi_knee', 'curvature.multi_knee', 'dfdt.multi_knee', 'menger.multi_knee', 'lmethod.multi_knee', 'kneedle.multi_knee', 'curvature.knee', 'dfdt.knee', 'menger.knee', 'lmethod.knee', 'kneedle.knee'], "recursive multi-knee detection")
     res.require_instances("C02 obligations", len(res.obligations), 18)
+
+
+def _no_recursion(rc: RuleCtx):
+    """M11: the recursive detection is driven by an explicit work stack.  A function that calls itself on the two parts has a call
+    depth of up to the number of knees (one-sided splits: a smooth convex curve splits off a few points at a time), and CPython
+    raises RecursionError beyond about a thousand frames - "completes for every curve" fails for long curves."""
+    res = rc.res
+    res.rule("M11", "no function reachable from multi_knee calls itself (directly, or as a nested def): the depth of the knee tree is bounded by the input size only, "
+                    "not by the interpreter's recursion limit")
+    todo, seen = [rc.func("multi_knee.multi_knee")], {}
+    while todo:
+        f = todo.pop()
+        if f.qualname in seen:
+            continue
+        seen[f.qualname] = f
+        for c in ast.walk(f.node):
+            if isinstance(c, ast.Call):
+                r = rc.lk.resolve(f.module, c.func)
+                if r.kind == "func" and r.obj is not None and r.obj.module.role != "control":
+                    todo.append(r.obj)
+    bad = 0
+    for q, f in sorted(seen.items()):
+        defs = [n for n in ast.walk(f.node) if isinstance(n, ast.FunctionDef)]
+        for d in defs:
+            calls_self = [c for c in ast.walk(d) if isinstance(c, ast.Call) and isinstance(c.func, ast.Name) and c.func.id == d.name]
+            # (a nested def that shadows nothing: the name it calls is itself)
+            inner_same = [n for n in ast.walk(d) if isinstance(n, ast.FunctionDef) and n is not d and n.name == d.name]
+            if calls_self and not inner_same:
+                bad += 1
+                res.violation("M11", f.module, f.name, calls_self[0], f"{d.name}() calls itself: the knee tree is explored by recursion, whose depth can reach the number of "
+                              "detected knees (one-sided splits) - beyond the interpreter's recursion limit multi_knee raises RecursionError instead of returning",
+                              ast.unparse(calls_self[0])[:100], "an explicit work stack (while stack: ... stack.append(...))", construct=f"recursion {d.name}")
+    if not bad:
+        res.ok("M11", "multi_knee.multi_knee", f"{len(seen)} reachable function(s), none calls itself: the recursion is an explicit work stack")
 
 
 def _driver(rc: RuleCtx):
